@@ -1,14 +1,35 @@
 (** Property C20 - the tracing feature is observationally inert.
 
-    The model has no feature flag: one deterministic function [run] gives the
-    trace of a script.  C20 is decided by checking that *each* of the three
-    builds of the crate (default features; tracing without a subscriber;
-    tracing with a subscriber at TRACE level) corresponds to this same model
-    on the same scripts (and, directly, that the three recorded traces and
-    the numbers of user-closure evaluations are equal).  What Coq contributes
-    is only that the reference is a function of the script: two builds that
-    both agree with the model agree with each other, on every script. *)
-From CB Require Import Machine.
+    Two ingredients.
+    (1) A model of the three macros of src/utils/mod.rs (Tracing.v): if the argument expressions
+        of trace!/instrument!/call! (everything after the format string) are pure, the three builds
+        - feature off; on without subscriber; on with a TRACE subscriber - perform the same effects
+        and the same calls with the same values, and every message expression is evaluated exactly
+        once.  The purity premise is audited on /repo's current source by every C20 run (and its
+        necessity is the refutation below).
+    (2) The operator model has no feature flag: one deterministic function [run] gives the trace of
+        a script; every C20 run checks that EACH of the three builds of the crate corresponds to
+        this same model on the same scripts (and that the three recorded traces and the numbers of
+        user-closure evaluations are equal), so every theorem of C01-C17 transfers to all builds. *)
+From CB Require Import Machine Tracing.
+
+Theorem C20_tracing_inert (S V : Type) (body : list (stmt S V)) (md : mode) (s : S) :
+  body_pure body -> exec md body s = exec Off body s.
+Proof. exact (@tracing_inert S V body md s). Qed.
+Print Assumptions C20_tracing_inert.
+
+Theorem C20_message_evaluated_once (S V : Type) (body : list (stmt S V)) (md : mode) (s : S) :
+  length (filter (@is_eval V) (snd (exec md body s))) = count_calls body /\
+  length (filter (@is_call V) (snd (exec md body s))) = count_calls body.
+Proof. exact (@message_evaluated_once S V body md s). Qed.
+Print Assumptions C20_message_evaluated_once.
+
+(** an effect inside a trace! argument breaks it: the premise is necessary *)
+Theorem C20_impure_trace_arg_refuted :
+  exec OnSub bad_body false <> exec Off bad_body false /\
+  exec OnNoSub bad_body false = exec Off bad_body false.
+Proof. exact impure_trace_arg_refuted. Qed.
+Print Assumptions C20_impure_trace_arg_refuted.
 
 Theorem C20_reference_is_deterministic p o (ms1 ms2 : list move) :
   ms1 = ms2 -> trace (run p o ms1) = trace (run p o ms2).
